@@ -357,7 +357,7 @@ func init() {
 		Sections: func(tier core.Tier, seed int64) []core.Section {
 			maxLen, nShort, nRandom := 2, 12000, 300
 			if tier == core.Thorough {
-				maxLen, nShort, nRandom = 3, 3000000, 20000
+				maxLen, nShort, nRandom = 3, 300000, 20000
 			}
 			nOps := len(ops)
 			nCfg := len(histConfigs) * 6 // x debug on/off x error page none/valid/broken
@@ -455,6 +455,9 @@ func init() {
 				perHistory := nCfg
 				if tier != core.Thorough && L >= 2 {
 					perHistory = 3
+				}
+				if tier == core.Thorough && L >= 3 {
+					perHistory = 3 // 48^3 histories x 3 rotating configurations
 				}
 				secs = append(secs, core.Section{Name: fmt.Sprintf("histories-len%d", L), Exhaustive: true, N: n * perHistory,
 					Run: func(c *core.Ctx, i int) {
